@@ -18,6 +18,10 @@ use rayon::prelude::*;
 use serde_json::{json, Value};
 use std::collections::BTreeMap;
 
+/// The prefix runs (the states of the transition system) must not depend on the comparison under
+/// test: bounds are never negative, so a threshold of -1 cannot stop a run whatever the comparison.
+const NO_THRESHOLD: f64 = -1.0;
+
 type Out = ([Vec<u64>; 2], [u64; 2]);
 
 fn run_bits(tree: &Tree, game: &crate::subject::G, method: RefMethod, preset: usize, iters: u64, max_reg: f64, seed: u64, threads: usize) -> Result<Out, String> {
@@ -46,7 +50,7 @@ pub fn check_game(ctx: &Ctx, tree: &Tree, method: RefMethod, preset: usize, nmax
     // unthresholded prefix runs: the states of the transition system
     let mut prefix: Vec<Out> = Vec::new();
     for t in 0..=nmax {
-        match run_bits(tree, &game, method, preset, t, 0.0, seed, threads) {
+        match run_bits(tree, &game, method, preset, t, NO_THRESHOLD, seed, threads) {
             Ok(out) => prefix.push(out),
             Err(msg) => {
                 ctx.violation("run-failed", &format!("{} at budget {} on {}", msg, t, tree.show()), base.clone());
@@ -55,7 +59,7 @@ pub fn check_game(ctx: &Ctx, tree: &Tree, method: RefMethod, preset: usize, nmax
         }
     }
     // determinism of the pinned run (a replay must give identical observations)
-    match run_bits(tree, &game, method, preset, nmax, 0.0, seed, threads) {
+    match run_bits(tree, &game, method, preset, nmax, NO_THRESHOLD, seed, threads) {
         Ok(again) if again == prefix[nmax as usize] => {}
         _ => {
             ctx.violation("pinned-run-not-deterministic", &format!("two runs under the same pinned decisions differ on {}", tree.show()), base.clone());
